@@ -51,12 +51,52 @@ def r1_operator_soundness(ctx, T, rule="C12.R1"):
                            % (lq, op, rq, hs[0].name, errs), {"handler": hs[0].path})
     # unary operators
     fs = [f for f in prog.fns.values() if f.name == "is_applicable_to_expr_type" and f.crate == "rusty_linter"]
-    if len(fs) != 1:
-        raise CheckError("anchor is_applicable_to_expr_type")
-    app = fs[0]
+    app = fs[0] if len(fs) == 1 else None
+    accepted_inline = None
+    if app is None:
+        # the predicate was inlined into the converter of unary expressions: the accepted qualifiers are read
+        # from its `matches!` (the arms of the switch over TypeQualifier on whose other side Type mismatch is built)
+        cands = [f for f in prog.fns.values() if f.crate == "rusty_linter" and "expr_rules::unary" in f.id and f.body is not None
+                 and any(s2.adt.endswith("::TypeQualifier") for s2 in mir.enum_switches(prog, f.body))]
+        if len(cands) != 1:
+            raise CheckError("anchor is_applicable_to_expr_type (and no inlined form in the unary converter)")
+        app = cands[0]
+        sw2 = [s2 for s2 in mir.enum_switches(prog, app.body) if s2.adt.endswith("::TypeQualifier")][0]
+        tm = {b for b, blk in enumerate(app.body.blocks) if not blk.get("c") for st in blk["s"]
+              if st["k"] == "assign" and st["r"].get("k") == "agg" and st["r"].get("a") == "adt" and st["r"].get("variant") == "TypeMismatch"}
+        arm_t = set(sw2.arms.values())
+        body2 = app.body
+
+        def flag_of(b):
+            """(local, value) of the bool constant the block stores (`matches!` lowers to a flag)"""
+            for st in body2.blocks[b]["s"]:
+                k = (st["r"].get("o") or {}).get("k") if st["k"] == "assign" and st["r"].get("k") == "use" else None
+                if k and k.get("ty") == "bool" and not st["p"][1]:
+                    return st["p"][0], k.get("int")
+            return None
+        fa = [flag_of(x) for x in arm_t]
+        fo = flag_of(sw2.otherwise) if sw2.otherwise is not None else None
+        if fo is not None and fa and all(x is not None and x[0] == fo[0] and x[1] != fo[1] for x in fa):
+            # the switch on the flag: the side of the `otherwise` value builds Type mismatch, the other side does not
+            for b in range(body2.nblocks):
+                t = body2.term(b)
+                pl = mir.op_place(t["o"]) if t["k"] == "switch" else None
+                if pl is None or pl[1] or pl[0] != fo[0]:
+                    continue
+                hit = [tg for v, tg in t["ts"] if v == fo[1]]
+                other_side = hit[0] if hit else t["else"]
+                arm_side = [tg for v, tg in t["ts"] if v != fo[1]][:1] or [t["else"]]
+                if other_side != arm_side[0] and any(x in body2.reachable(other_side, avoid={arm_side[0]}) for x in tm) and \
+                        not any(x in body2.reachable(arm_side[0], avoid={other_side}) for x in tm):
+                    accepted_inline = set(sw2.arms)
+        if accepted_inline is None:
+            raise CheckError("the inlined unary applicability test is not recognised")
     for q in ALLQ:
         et = T.eng.make(ET, "BuiltIn", {0: tf.Tag(ot.TQ, q)})
-        rs = {tf.shape(x) for x in T.eng.summary(app, (tf.Ref(et),))}
+        if accepted_inline is not None:
+            rs = {"1"} if q in accepted_inline else {"0"}
+        else:
+            rs = {tf.shape(x) for x in T.eng.summary(app, (tf.Ref(et),))}
         for u, ins in (("Minus", "NegateA"), ("Not", "NotA")):
             h = htab[ins][0]
             tags, errs = T.vm(h, q2t[q], None)
@@ -647,7 +687,8 @@ def r17_for_checks_every_bound_and_the_step(ctx, rule="C12.R17"):
         if not any("ForLoop" in body.locals[i]["ty"] for i in range(1, f.argc + 1)):
             continue
         calls = [(b, t) for b, t in body.calls() if mir.callee_path(t).split("::")[-1] == "can_cast_to" and t["args"]]
-        if not calls:
+        in_closure = any(mir.callee_path(t).split("::")[-1] == "can_cast_to" for c in prog.closures_of(f) for _b, t in c.body.calls())
+        if not calls and not in_closure:
             continue
         pv = mir.Prov(body)
         got = set()
@@ -655,7 +696,8 @@ def r17_for_checks_every_bound_and_the_step(ctx, rule="C12.R17"):
         def fields_of(o):
             mir.origin_mentions(o, lambda z: got.add(z[2]) if z[0] == "field" and z[2] in want else None)
 
-        through_iter = False
+        # applied by a closure of an iterator chain (`.find(|e| !e.can_cast_to(counter))`): what the chain runs over
+        through_iter = in_closure
         for _b, t in calls:
             o = pv.of_operand(t["args"][0])
             fields_of(o)
